@@ -379,9 +379,26 @@ class Sut(object):
         t, m = self.t, self.m
         got = []
         marks = {}
-        for node, lru in t.pages_iter():
-            got.append(lru)
-            marks[lru] = bool(node.is_crawled())
+        if rng.random() < 0.5:
+            for node, lru in t.pages_iter():
+                got.append(lru)
+                marks[lru] = bool(node.is_crawled())
+        else:
+            # lazy enumeration advanced in turns with a second one and with counts
+            self.stats["C01_interleaved_enumerations"] += 1
+            g2 = t.pages_iter()
+            second = []
+            for node, lru in t.pages_iter():
+                got.append(lru)
+                marks[lru] = bool(node.is_crawled())
+                nxt = next(g2, None)
+                if nxt is not None:
+                    second.append(nxt[1])
+                if rng.random() < 0.2:
+                    t.count_pages()
+            second += [l for _, l in g2]
+            if second != got:
+                out.append(D(["C01"], "two-enumerations-disagree", first=len(got), second=len(second)))
         self.stats["C01_pages_compared"] += len(m.pages)
         if Counter(got) != Counter(m.pages.keys()):
             c = Counter(got)
@@ -492,8 +509,32 @@ class Sut(object):
         n = t.count_links()
         if n != sum(exp.values()):
             out.append(D(["C03"], "count_links", got=n, expected=sum(exp.values())))
-        lo = list(t.links_iter(out=True))
-        li = [(b, a) for a, b in t.links_iter(out=False)]
+        if rng.random() < 0.5:
+            lo = list(t.links_iter(out=True))
+            li = [(b, a) for a, b in t.links_iter(out=False)]
+        else:
+            # the enumerations are lazy: advance both in turns, with other link
+            # reads in between (a reader must not disturb a suspended one)
+            lo, li = [], []
+            go, gi = t.links_iter(out=True), t.links_iter(out=False)
+            alive = [True, True]
+            self.stats["C03_interleaved_enumerations"] += 1
+            while alive[0] or alive[1]:
+                if alive[0]:
+                    try:
+                        lo.append(next(go))
+                    except StopIteration:
+                        alive[0] = False
+                if pages and rng.random() < 0.5:
+                    q = rng.choice(pages)
+                    t.get_page_links(q)
+                    t.get_page_indegree(q)
+                if alive[1]:
+                    try:
+                        a, b = next(gi)
+                        li.append((b, a))
+                    except StopIteration:
+                        alive[1] = False
         self.stats["C03_link_pairs_compared"] += len(exp)
         if sorted(lo) != sorted(exp.keys()):
             out.append(D(["C03"], "links_iter-out", got=len(lo), expected=len(exp)))
